@@ -11,6 +11,7 @@ must agree after iota.
 """
 import functools
 import itertools
+import os
 
 import numpy as np
 
@@ -19,6 +20,8 @@ from common import fvec, fbits, fmat, unfvec, unfmat, ivec, univec
 import dinoutil
 
 TOL = 1e-10
+# the latitude-derivative theorems / composite model operations (revision f_C09) are present in this lean tree
+HAVE_LAT = os.path.exists(os.path.join(common.LEAN, 'DinoProofs', 'Lemmas', 'SHEquivLat.lean'))
 RULE = ('grids: (M, L, nlon, nlat) from a table with M 1..8, L = M..M+3, nlon >= 2M-1, three latitude '
         'spacings, longitude offset 0 / 0.3, radius None / 1 / 2.5 / 6.37e6; fast layout with '
         'base_shape_multiple None,1,2,3,4,8, stacked_fourier_transforms None/True/False, '
@@ -212,9 +215,11 @@ def run(ctx: common.Ctx):
   from dinosaur import fourier
 
   ctx.lean('DinoProofs.Properties.C09', 'C09.txt',
-           extra_files=['DinoProofs/Lemmas/SHEquiv.lean', 'DinoProofs/Lemmas/SH.lean', 'DinoProofs/Lemmas/Lin.lean',
-                        'Dino/SHEquiv.lean', 'Dino/SHEquivDrv.lean', 'Dino/SH.lean', 'Dino/Fourier.lean',
-                        'Dino/Lin.lean'])
+           extra_files=['DinoProofs/Lemmas/SHEquiv.lean'] +
+           (['DinoProofs/Lemmas/SHEquivLat.lean'] if HAVE_LAT else []) +
+           ['DinoProofs/Lemmas/SH.lean', 'DinoProofs/Lemmas/Lin.lean',
+            'Dino/SHEquiv.lean', 'Dino/SHEquivDrv.lean', 'Dino/SH.lean', 'Dino/Fourier.lean',
+            'Dino/Lin.lean'])
 
   rng = ctx.rng
   lines, checks = [], []   # checks: (op, inp, impl_value, kind)
@@ -224,7 +229,6 @@ def run(ctx: common.Ctx):
     checks.append((op, inp, impl, kind))
 
   correspondence(ctx, jax, jnp, sh, al, fourier, add)
-
   outs = ctx.model(lines)
   for (op, inp, impl, kind), o in zip(checks, outs):
     if o == 'bad-op':
@@ -252,6 +256,9 @@ def run(ctx: common.Ctx):
         ctx.corr_float(op, inp, np.asarray(impl), np.asarray(untstr(o), dtype=float))
     elif kind == 'vec':
       ctx.corr_float(op, inp, np.asarray(impl), np.asarray(unfvec(o), dtype=float))
+    elif kind == 'scalar':   # impl = (value, magnitude of the summands): sums with cancellation are compared at that scale
+      ctx.corr_float(op, inp, np.asarray([float(impl[0])]), np.asarray(unfvec(o), dtype=float),
+                     atol=1e-9 * (float(impl[1]) + abs(float(impl[0]))))
     else:
       if o == 'value-error':
         ctx.corr_mismatch(op, inp, impl, o, 'model raised')
@@ -273,14 +280,25 @@ def run(ctx: common.Ctx):
 
 
 def corr_bundle(g, L):
-  def f(x, z):
+  def f(x, y, z):
     out = dict(to_nodal=g.to_nodal(x), to_modal=g.to_modal(z), d_dlon=g.d_dlon(x), laplacian=g.laplacian(x),
                inverse_laplacian=g.inverse_laplacian(x), cos_lat_d_dlat=g.cos_lat_d_dlat(x),
                sec_lat_d_dlat_cos2=g.sec_lat_d_dlat_cos2(x))
     for n in (1, 2, L, L + 2):
       out[f'clip{n}'] = g.clip_wavenumbers(x, n)
+    for clip in (True, False):
+      out[f'grad{int(clip)}'] = jnp_stack(g.cos_lat_grad(x, clip=clip))
+      out[f'div{int(clip)}'] = g.div_cos_lat((x, y), clip=clip)
+      out[f'curl{int(clip)}'] = g.curl_cos_lat((x, y), clip=clip)
+    out['kcross'] = jnp_stack(g.k_cross((x, y)))
+    out['integrate'] = g.integrate(z)
     return out
   return f
+
+
+def jnp_stack(t):
+  import jax.numpy as jnp
+  return jnp.stack(list(t))
 
 
 def correspondence(ctx, jax, jnp, sh, al, fourier, add):
@@ -382,8 +400,10 @@ def correspondence(ctx, jax, jnp, sh, al, fourier, add):
         if name.startswith('unit'):
           z = np.asarray(gr.to_nodal(jnp.asarray(x)))
         zp = pair.padn(z)
-        outr = {k: np.asarray(v) for k, v in jr(jnp.asarray(x), jnp.asarray(z)).items()}
-        outf = {k: np.asarray(v) for k, v in jf(jnp.asarray(xf), jnp.asarray(zp)).items()}
+        y2 = rng.standard_normal(x.shape) * gr.mask    # second field of the vector operators
+        y2f = pair.iota(y2)
+        outr = {k: np.asarray(v) for k, v in jr(jnp.asarray(x), jnp.asarray(y2), jnp.asarray(z)).items()}
+        outf = {k: np.asarray(v) for k, v in jf(jnp.asarray(xf), jnp.asarray(y2f), jnp.asarray(zp)).items()}
         zr, zf = outr['to_nodal'], outf['to_nodal']
         add(f'sh9 F synth R {bR} {fmat(x)}', 'RealSphericalHarmonics.inverse_transform', inp, zr)
         add(f'sh9 F synth {fk} {bF} {fmat(xf)}', f'FastSphericalHarmonics.inverse_transform[{fk}]', inp, zf)
@@ -417,6 +437,27 @@ def correspondence(ctx, jax, jnp, sh, al, fourier, add):
         for op, fn in (('cos', 'cos_lat_d_dlat'), ('sec', 'sec_lat_d_dlat_cos2')):
           add(f'sh9 F dlat R {op} {M} {L} 0 0 {fmat(x)}', f'Grid.{fn}[real]', inp, outr[fn])
           add(f'sh9 F dlat F {op} {M} {L} {pair.pr} {pair.pc} {fmat(xf)}', f'Grid.{fn}[fast]', inp, outf[fn])
+        if HAVE_LAT:
+          # grad / div / curl (clip on and off), k_cross, integrate: both layouts against the model of that layout
+          rad = fbits(float(gr.radius))
+          inpv = dict(inp, y=y2.tolist())
+          for c in (1, 0):
+            add(f'sh9 F grad R {M} {L} 0 0 {rad} {c} {fmat(x)}', f'Grid.cos_lat_grad[real,clip={bool(c)}]', inp,
+                outr[f'grad{c}'], 'ten')
+            add(f'sh9 F grad F {M} {L} {pair.pr} {pair.pc} {rad} {c} {fmat(xf)}',
+                f'Grid.cos_lat_grad[fast,clip={bool(c)}]', inp, outf[f'grad{c}'], 'ten')
+            for opn, fn in (('div', 'div_cos_lat'), ('curl', 'curl_cos_lat')):
+              add(f'sh9 F {opn} R {M} {L} 0 0 {rad} {c} {fmat(x)} {fmat(y2)}', f'Grid.{fn}[real,clip={bool(c)}]', inpv,
+                  outr[f'{opn}{c}'])
+              add(f'sh9 F {opn} F {M} {L} {pair.pr} {pair.pc} {rad} {c} {fmat(xf)} {fmat(y2f)}',
+                  f'Grid.{fn}[fast,clip={bool(c)}]', inpv, outf[f'{opn}{c}'])
+          add(f'sh9 F kcross {fmat(x)} {fmat(y2)}', 'Grid.k_cross[real]', inpv, outr['kcross'], 'ten')
+          add(f'sh9 F kcross {fmat(xf)} {fmat(y2f)}', 'Grid.k_cross[fast]', inpv, outf['kcross'], 'ten')
+          mag = r2 * float(np.abs(np.asarray(br.w)).max()) * float(np.abs(z).sum())
+          add(f'sh9 F integrate {fbits(r2)} {fvec(br.w)} {fmat(z)}', 'Grid.integrate[real]', inz,
+              (outr['integrate'], mag), 'scalar')
+          add(f'sh9 F integrate {fbits(r2)} {fvec(bf.w)} {fmat(zp)}', 'Grid.integrate[fast]', inz,
+              (outf['integrate'], mag), 'scalar')
       add(f'sh9 F eig {fbits(r2)} {L} 0', 'Grid.laplacian_eigenvalues[real]', inp0, gr.laplacian_eigenvalues, 'vec')
       add(f'sh9 F eig {fbits(r2)} {L} {pair.pc}', 'Grid.laplacian_eigenvalues[fast]', inp0, gf.laplacian_eigenvalues,
           'vec')
@@ -504,6 +545,82 @@ def cmp_nodal(ctx, pair, zf, zr, key, inp):
   ctx.expect(not (zf[..., pm] != 0).any(), key + ':padding', f'{key}: nodal padding of the fast result is not exactly zero', inp)
 
 
+LEAK = dict(n=0, nonzero=0, max=0.0, oracle=0)
+
+
+def leak_probes(ctx, jnp, sh, pair, x, y, outf, inp, rng):
+  """C09-1 on the real code: what the raw latitude derivatives of the fast layout leave in padding column L
+  (theorems fastDD_iota_colL / fastDD_iota_padding_zero), that every following operation discards it
+  (clip_fastDD_iota, laplacian_fastDD_iota, inverseLaplacian_fastDD_iota, fastSynth_fastDD_iota) and that it can
+  never reach a resolved coefficient through a further latitude derivative (fastDD_block)."""
+  M, L, N, J = pair.dims
+  gr, gf = pair.gr, pair.gf
+  J_ = jnp.asarray
+  xf, yf = pair.iota(x), pair.iota(y)
+  raw_ops = (('cos_lat_d_dlat', gr.cos_lat_d_dlat, gf.cos_lat_d_dlat),
+             ('sec_lat_d_dlat_cos2', gr.sec_lat_d_dlat_cos2, gf.sec_lat_d_dlat_cos2))
+  if pair.pc:
+    m = np.abs(np.asarray(gf.modal_axes[0]))[:2 * M].astype(float)
+    rows = np.ones(2 * M, bool)
+    rows[1] = False
+    wgt = np.sqrt(np.where((m <= L - 1) & rows, (L ** 2 - m ** 2) / (4.0 * L ** 2 - 1), 0.0))
+    rad = float(gr.radius)
+    cos_x = -(L - 1) * wgt * xf[..., :2 * M, L - 1]
+    sec_x = -(L + 1) * wgt * xf[..., :2 * M, L - 1]
+    sec_y = -(L + 1) * wgt * yf[..., :2 * M, L - 1]
+    g0, g1 = outf['cos_lat_grad[clip=False]']
+    table = [('cos_lat_d_dlat', outf['cos_lat_d_dlat'], cos_x), ('sec_lat_d_dlat_cos2', outf['sec_lat_d_dlat_cos2'], sec_x),
+             ('cos_lat_grad[clip=False].lon', g0, 0.0 * cos_x), ('cos_lat_grad[clip=False].lat', g1, cos_x / rad),
+             ('div_cos_lat[clip=False]', outf['div_cos_lat[clip=False]'], sec_y / rad),
+             ('curl_cos_lat[clip=False]', outf['curl_cos_lat[clip=False]'], -sec_x / rad)]
+    for name, got, pred in table:
+      got = np.asarray(got)[..., :2 * M, L]
+      ctx.evaluations += 1
+      scale = max(1.0, float(np.abs(pred).max()))
+      err = float(np.abs(got - pred).max())
+      ctx.expect(err <= TOL * scale, 'grid.leak-column-L:' + name,
+                 f'{name}: padding column L of the fast result is not the characterised value '
+                 f'(-(L-1) resp. -(L+1)) * sqrt((L^2-m^2)/(4L^2-1)) * x[m, L-1] (abs. {err:.3e})', inp)
+      LEAK['n'] += 1
+      LEAK['nonzero'] += int(np.any(got != 0))
+      LEAK['max'] = max(LEAK['max'], float(np.abs(got).max()))
+    # independent oracle: the leaked value is the exact l = L coefficient of the derivative, i.e. column L of the REAL
+    # layout with one more total wavenumber applied to x extended by a zero column
+    if x.ndim == 2:
+      g1big = sh.Grid(longitude_wavenumbers=M, total_wavenumbers=L + 1, longitude_nodes=N, latitude_nodes=J,
+                      latitude_spacing=pair.spacing, longitude_offset=pair.offset, radius=pair.radius)
+      xbig = np.concatenate([x, np.zeros(x.shape[:-1] + (1,))], axis=-1)
+      for name, _, ff in raw_ops:
+        big = np.asarray(getattr(g1big, name)(J_(xbig)))
+        got = np.asarray(ff(J_(xf)))
+        ctx.evaluations += 1
+        colf = np.concatenate([got[0:1, L], got[2:2 * M, L]])
+        err = float(np.abs(colf - big[:, L]).max())
+        ctx.expect(err <= TOL * max(1.0, float(np.abs(big[:, L]).max())), 'grid.leak-column-L:oracle-L+1:' + name,
+                   f'{name}: padding column L differs from the l = L coefficient computed by the real layout with '
+                   f'total_wavenumbers = L + 1 (abs. {err:.3e})', inp)
+        LEAK['oracle'] += 1
+  else:
+    ctx.dist['dlat-leak:no-column-padding (exact commutation required)'] += 1
+  for name, fr_, ff_ in raw_ops:
+    rawr, rawf = fr_(J_(x)), ff_(J_(xf))
+    # every following masked operation / the synthesis discards column L: exact iota images
+    cmp_modal(ctx, pair, gf.clip_wavenumbers(rawf), gr.clip_wavenumbers(rawr), f'grid.clip_wavenumbers({name})', inp)
+    cmp_modal(ctx, pair, gf.laplacian(rawf), gr.laplacian(rawr), f'grid.laplacian({name})', inp)
+    cmp_modal(ctx, pair, gf.inverse_laplacian(rawf), gr.inverse_laplacian(rawr), f'grid.inverse_laplacian({name})', inp)
+    cmp_nodal(ctx, pair, gf.to_nodal(rawf), gr.to_nodal(rawr), f'grid.to_nodal({name})', inp)
+    # a further latitude derivative of the unclipped result: the resolved block is unaffected by column L
+    for name2, fr2, ff2 in raw_ops:
+      cmp_modal(ctx, pair, ff2(rawf), fr2(rawr), f'grid.{name2}({name})', inp, leak=True)
+    cmp_modal(ctx, pair, gf.d_dlon(rawf), gr.d_dlon(rawr), f'grid.d_dlon({name})', inp, leak=True)
+    # block locality: junk in row 1 and in ALL padding (column L included) of the input does not reach the block
+    junk = xf + pair.modal_padding_mask() * rng.standard_normal(xf.shape)
+    ctx.evaluations += 1
+    e = dinoutil.relerr(pair.uniota(np.asarray(ff_(J_(junk)))), np.asarray(rawr))
+    ctx.expect(e <= TOL, f'grid.{name}:junk-in-padding',
+               f'{name}: values in row 1 / padding of the input change the unpadded block (rel. {e:.3e})', inp)
+
+
 def probe_pair(ctx, jax, jnp, sh, pair, rng, batch=True, heavy=True):
   """Every public Grid method on one (real, fast) pair."""
   M, L, N, J = pair.dims
@@ -574,6 +691,7 @@ def probe_pair(ctx, jax, jnp, sh, pair, rng, batch=True, heavy=True):
             # the raw latitude derivatives write into padding column L (b[:, -1] = 0 hits the padded column)
             key = 'grid.clip_wavenumbers' if opn in ('clip1', 'clip2') else 'grid.' + opn
             cmp_modal(ctx, pair, fa, ra, key, inp, leak=opn in leaky or opn.endswith('[clip=False]'))
+      leak_probes(ctx, jnp, sh, pair, x, y, outf, inp, rng)
       # T9.1 strong form on the real code: row 1 and the padding of the input are ignored
       junk = xf + pair.modal_padding_mask() * rng.standard_normal(xf.shape)
       ctx.evaluations += 1
@@ -646,10 +764,20 @@ def probes_grid(ctx, jax, jnp, sh):
       z = rng.standard_normal((2, N, J))
       cmp_modal(ctx, pair, pair.gf.to_modal(jnp.asarray(pair.padn(z))), pair.gr.to_modal(jnp.asarray(z)),
                 'grid.to_modal', inp)
-  ctx.notes.append('cos_lat_d_dlat / sec_lat_d_dlat_cos2 (and grad/div/curl with clip=False) of the fast layout write '
-                   'a non-zero value into padding column L when modal_padding[1] > 0 (the weight table zeroes '
-                   'b[:, -1], the last *padded* column); the probes require exact zeros everywhere else and '
-                   'agreement on the unpadded block; clipping, to_nodal and the eigenvalue operators discard it')
+  ctx.notes.append(dict(domain_statement=(
+      'padding column L of the fast layout: Grid._derivative_recurrence_weights sets b[:, -1] = 0 on the last PADDED '
+      'column, so with modal_padding[1] >= 1 column L-1 of b keeps sqrt((L^2-m^2)/(4L^2-1)) and cos_lat_d_dlat / '
+      'sec_lat_d_dlat_cos2 (hence cos_lat_grad / div_cos_lat / curl_cos_lat with clip=False) write '
+      '-(L-1) resp. -(L+1) times that weight times x[m, L-1] into padding column L (the exact l = L coefficient of the '
+      'derivative, for which the real layout has no column). "Row 1 and all padding exactly zero" therefore does NOT hold for '
+      'the raw latitude derivatives; it holds for every other operation and after clip_wavenumbers. Proved: '
+      'Dino.C09.fastDD_iota_entries / fastDD_iota_colL (value), fastDD_iota_padding_zero (everything else is zero), '
+      'fastDD_iota_unIota (resolved block equal), clip_/laplacian_/inverseLaplacian_/fastSynth_fastDD_iota (discarded by every '
+      'following operation), fastDD_block (never reaches a resolved coefficient through a further derivative). Not a defect: '
+      'no operation of the code moves column L back into the columns l < L (a[:, L] is masked to 0, the padded Legendre '
+      'columns are 0, all other operators are diagonal in l).'),
+      measured=dict(column_L_checks=LEAK['n'], with_nonzero_value=LEAK['nonzero'], max_abs_value=LEAK['max'],
+                    agreement_with_real_layout_L_plus_1=LEAK['oracle'], tolerance=TOL)))
 
 
 def _wn(M):
